@@ -344,6 +344,9 @@ Proof.
   - stmt_tac.
   - stmt_tac.
   - (* SCall *) apply (exec_call_inv fns f HP) in H; [|assumption]. rewrite H. now apply frame_refl.
+  - stmt_tac.
+  - stmt_tac.
+  - stmt_tac.
 Qed.
 
 End StepInv3.
